@@ -2587,9 +2587,12 @@ func (db *DB) ApplyLTXNoLock(path string, fatalOnError bool) (retErr error) {
 		return fmt.Errorf("set pos: %w", err)
 	}
 
-	// Rewrite SHM so that the transaction is visible.
-	if err := db.updateSHM(); err != nil {
-		return fmt.Errorf("update shm: %w", err)
+	// Rewrite SHM so that the transaction is visible. A deleted database has
+	// no SHM file and must not get a new one.
+	if dec.Header().Commit > 0 {
+		if err := db.updateSHM(); err != nil {
+			return fmt.Errorf("update shm: %w", err)
+		}
 	}
 
 	// Invalidate entire database if this was a snapshot.
